@@ -50,6 +50,78 @@ func shapes() []gen.ArmMember {
 	}
 }
 
+// column value classes for the independent-column product (scenario header-columns)
+var (
+	cpTS   = []string{"", "0", "7", maxTS}
+	cpUID  = []string{"", "0", "1000", maxID}
+	cpGID  = []string{"", "0", "100", maxID}
+	cpMode = []string{"", "644", "100644", "00100644"}
+)
+
+func cpNames(more bool) []string {
+	n := []string{"a", "debian-binary", "0123456789abcdef", "0123456789abcde/", "x/", "a b/"}
+	if more {
+		n = append(n, "a b", "e.tar.gz")
+	}
+	return n
+}
+
+func cpData(more bool) [][]byte {
+	d := [][]byte{{}, []byte("\n"), []byte("`\n"), []byte("ab`\nc")}
+	if more {
+		d = append(d, data61())
+	}
+	return d
+}
+
+func cp0desc(more bool) map[string]interface{} {
+	var sizes []int
+	for _, d := range cpData(more) {
+		sizes = append(sizes, len(d))
+	}
+	return map[string]interface{}{"name": cpNames(more), "timestamp": cpTS, "uid": cpUID, "gid": cpGID, "mode": cpMode, "data_sizes": sizes,
+		"size_column": "decimal | zero-padded to 10 columns | blank (empty member only)"}
+}
+
+// columnProduct is the full product of the per-column value classes.
+func columnProduct(more bool) []gen.ArmMember {
+	var out []gen.ArmMember
+	for _, name := range cpNames(more) {
+		for _, ts := range cpTS {
+			for _, uid := range cpUID {
+				for _, gid := range cpGID {
+					for _, mode := range cpMode {
+						for _, d := range cpData(more) {
+							m := gen.ArmMember{Name: name, TS: ts, UID: uid, GID: gid, Mode: mode, Data: d}
+							out = append(out, m)
+							z := m
+							z.SizeSet, z.SizeText = true, fmt.Sprintf("%010d", len(d))
+							out = append(out, z)
+							if len(d) == 0 {
+								bl := m
+								bl.SizeSet, bl.SizeText = true, ""
+								out = append(out, bl)
+							}
+						}
+					}
+				}
+			}
+		}
+	}
+	return out
+}
+
+// blankPattern names which of timestamp/uid/gid/mode are blank (histogram: every pattern must be populated).
+func blankPattern(m gen.ArmMember) string {
+	f := func(s string) byte {
+		if s == "" {
+			return '_'
+		}
+		return 'x'
+	}
+	return "member blank-pattern ts,uid,gid,mode=" + string([]byte{f(m.TS), f(m.UID), f(m.GID), f(m.Mode)})
+}
+
 // archives lists every sequence of 0..maxN shape indices.
 func archives(nShapes, maxN int) [][]int {
 	out := [][]int{{}}
@@ -302,6 +374,54 @@ func Run(r *mc.Run) {
 				if nt {
 					st.Nontrivial++
 				}
+			}
+			return !r.Expired()
+		})
+
+	// ---- scenario 1b: the header columns vary INDEPENDENTLY ----
+	// The 14 shapes above tie the columns together (e.g. timestamp/uid/gid are blank only all at once). Here one
+	// member takes the full product of per-column values - every blank/filled pattern of timestamp x uid x gid x
+	// mode, every width class per column, each column with its own distinct values so that a column read from the
+	// wrong place or skipped because of a neighbour shows - and is placed as the sole / first / middle / last member
+	// between neighbours whose columns are all filled with other values (a blank column must read 0, not what the
+	// previous header had).
+	cp := columnProduct(!r.Quick())
+	prev := gen.ArmMember{Name: "p", TS: "11", UID: "22", GID: "33", Mode: "755", Data: []byte("odd")}
+	next := gen.ArmMember{Name: "n/", TS: "44", UID: "55", GID: "66", Mode: "600", Data: []byte{}}
+	posNames := []string{"sole", "first", "last", "middle"}
+	const cchunk = 128
+	r.Scenario("header-columns", map[string]interface{}{"product_members": len(cp), "columns": cp0desc(!r.Quick()),
+		"positions": posNames, "readerat_conventions": 2, "schedules": "read after each Next; all Nexts then part/all/seek last to first"},
+		(len(cp)+cchunk-1)/cchunk, func(shard int, st *mc.Stats) bool {
+			lim := limiter{}
+			for mi := shard * cchunk; mi < (shard+1)*cchunk && mi < len(cp); mi++ {
+				m := cp[mi]
+				for pi, ms := range [][]gen.ArmMember{{m}, {m, next}, {prev, m}, {prev, m, next}} {
+					b := gen.ArmBuild(ms)
+					exp := expectAll(ms)
+					scheds := schedules(len(ms))[:2]
+					for conv := 0; conv < 2; conv++ {
+						for _, ops := range scheds {
+							_, f := runOps(b, exp, conv, ops)
+							st.Evals++
+							st.Traces++
+							st.Transitions += int64(len(ops))
+							if f != nil {
+								st.Class("violation:" + f.clause)
+								if lim.ok(f.clause + fmt.Sprint(conv)) {
+									record(st, checkSeq("header-columns", In{Members: ms, Conv: conv, Ops: ops}))
+								}
+							} else {
+								st.Class("ok position=" + posNames[pi])
+							}
+						}
+					}
+					st.Nontrivial++
+					if mi%1013 == 0 && pi == 3 && st.WantSample() {
+						st.Sample(map[string]interface{}{"archive_hex": fmt.Sprintf("%x", b), "position": posNames[pi]})
+					}
+				}
+				st.Class(blankPattern(m))
 			}
 			return !r.Expired()
 		})
